@@ -312,6 +312,58 @@ func ruleC13CapturedVars(c *Ctx) {
 				}
 			}
 			if inCycle(b) {
+				// writes THROUGH a captured variable that the goroutine also reassigns (element stores, copy into
+				// a sub-slice of it) are writes to shared storage as well
+				var visit2 func(fn *ssa.Function, bind map[*ssa.FreeVar]ssa.Value)
+				visit2 = func(fn *ssa.Function, bind map[*ssa.FreeVar]ssa.Value) {
+					derives := func(v ssa.Value) bool {
+						seen := map[ssa.Value]bool{}
+						var rec func(x ssa.Value) bool
+						rec = func(x ssa.Value) bool {
+							if seen[x] {
+								return false
+							}
+							seen[x] = true
+							switch x := x.(type) {
+							case *ssa.UnOp:
+								if fv, ok := x.X.(*ssa.FreeVar); ok {
+									if a, ok := bind[fv].(*ssa.Alloc); ok && written[a] {
+										return true
+									}
+								}
+							case *ssa.Slice:
+								return rec(x.X)
+							case *ssa.Phi:
+								for _, e := range x.Edges {
+									if rec(e) {
+										return true
+									}
+								}
+							case *ssa.IndexAddr:
+								return rec(x.X)
+							}
+							return false
+						}
+						return rec(v)
+					}
+					allInstrs(fn, func(_ *ssa.BasicBlock, cin ssa.Instruction) {
+						var target ssa.Value
+						switch cin := cin.(type) {
+						case *ssa.Store:
+							if ia, ok := cin.Addr.(*ssa.IndexAddr); ok {
+								target = ia.X
+							}
+						case *ssa.Call:
+							if bi, ok := cin.Call.Value.(*ssa.Builtin); ok && bi.Name() == "copy" {
+								target = cin.Call.Args[0]
+							}
+						}
+						if target != nil && derives(target) && len(locksHeldAt(fn, cin)) == 0 {
+							ok2, why = false, fmt.Sprintf("the goroutine writes into storage reached through a shared captured variable at %s without holding the lock (another instance may reallocate or overwrite it)", c.P.Pos(cin.Pos()))
+						}
+					})
+				}
+				visit2(clo, bind)
 				for _, st := range stores {
 					if len(locksHeldAt(st.Parent(), st)) == 0 {
 						ok2, why = false, fmt.Sprintf("concurrent instances of the goroutine store to a captured variable at %s without holding a lock", c.P.Pos(st.Pos()))
